@@ -119,6 +119,59 @@ class Unknown(Def):
 
 # ---------------------------------------------------------------------------
 
+def _name_counts(func):
+    counts = {}
+    for n in ast.walk(func):
+        if isinstance(n, ast.Name):
+            counts[n.id] = counts.get(n.id, 0) + 1
+    return counts
+
+
+def _inline_return_temps(func):
+    """analysis normal form:  ``t = e`` immediately followed by ``return t`` with t used
+    nowhere else in the function becomes ``return e`` (undoes extract-variable of a result)"""
+    captured = set()
+    for n in ast.walk(func):
+        if n is not func and isinstance(n, (ast.FunctionDef, ast.AsyncFunctionDef, ast.Lambda)):
+            for x in ast.walk(n):
+                if isinstance(x, ast.Name):
+                    captured.add(x.id)
+
+    def fix(body):
+        out = []
+        i = 0
+        while i < len(body):
+            st = body[i]
+            nxt = body[i + 1] if i + 1 < len(body) else None
+            if isinstance(st, ast.Assign) and len(st.targets) == 1 and isinstance(st.targets[0], ast.Name) \
+                    and isinstance(nxt, ast.Return) and isinstance(nxt.value, ast.Name) \
+                    and nxt.value.id == st.targets[0].id and st.targets[0].id not in captured:
+                r = ast.Return(value=st.value)
+                ast.copy_location(r, st)
+                r.end_lineno = getattr(nxt, 'end_lineno', None)
+                out.append(r)
+                i += 2
+                continue
+            out.append(st)
+            i += 1
+        return out
+
+    for node in ast.walk(func):
+        if node is not func and isinstance(node, (ast.FunctionDef, ast.AsyncFunctionDef, ast.Lambda, ast.ClassDef)):
+            continue
+        for f in ('body', 'orelse', 'finalbody'):
+            v = getattr(node, f, None)
+            if isinstance(v, list) and v and isinstance(v[0], ast.stmt):
+                setattr(node, f, fix(v))
+
+
+def normalise(tree):
+    for node in ast.walk(tree):
+        if isinstance(node, (ast.FunctionDef, ast.AsyncFunctionDef)):
+            _inline_return_temps(node)
+    return tree
+
+
 class Module:
     def __init__(self, program, name, relpath, source):
         self.program = program
@@ -126,7 +179,7 @@ class Module:
         self.short = name.split('.', 1)[1] if '.' in name else name
         self.relpath = relpath            # glom/core.py
         self.source = source
-        self.tree = ast.parse(source, filename=relpath)
+        self.tree = normalise(ast.parse(source, filename=relpath))
         self.symbols = {}                 # name -> list of raw bindings
         self.units = []
         self.classes = []
